@@ -1,10 +1,98 @@
 import Driver.Util
+import Hv.Storage.Migrate
 
-/-! Placeholder: the line-protocol driver of domain C23 is not written yet. -/
+/-! Driver for domain C23.  The op line describes the legacy folder as found on disk (chunk files in
+    directory order, each segment as `hex(key)=hash`), the options and the injected failure; the driver
+    runs the migrator model with the extracted facts and the trivial V2 codec and prints what must be
+    observable afterwards.  A reply that violates the Spec carries `#F:<finding>`. -/
 namespace Driver.C23
+open Hv.Migrate
 
-def run (_args : List String) : IO UInt32 := do
-  IO.eprintln "drv: domain C23 has no driver yet"
-  return 2
+def triYes (s : String) : Bool := s == "yes"
+
+def parseFolder (s : String) : Folder :=
+  ((s.splitOn ";").filter (· ≠ "")).map fun f =>
+    match f.splitOn ":" with
+    | [nm, segs] =>
+      (nm, ((segs.splitOn ",").filter (· ≠ "")).map fun kv =>
+        match kv.splitOn "=" with
+        | [k, h] => ({ key := k, data := h } : Seg)
+        | _ => { key := kv, data := "" })
+    | _ => (f, [])
+
+def parseFault (s : String) : Fault :=
+  if s == "load" then .load
+  else if s == "verify" then .verify
+  else if s.startsWith "write:" then
+    -- write 1 and 2 (header, swamp name) happen while the file is created
+    let k := ((s.drop 6).toString.toNat?).getD 3
+    .write (if k ≤ 2 then 0 else 1)
+  else if s.startsWith "unlink:" then .unlink (((s.drop 7).toString.toNat?).getD 0)
+  else .none
+
+/-- per key: the last value of each chunk that holds it -/
+def candidates (fo : Folder) (k : String) : List String :=
+  fo.filterMap fun f => lastOf f.2 k
+
+def keysOf (fo : Folder) : List String := ((allSegs fo).map (·.key)).eraseDups
+
+def uniqueKeys (fo : Folder) : Bool := ((allSegs fo).map (·.key)).eraseDups.length == (allSegs fo).length
+
+def step (cfg : MCfg) (_ : Unit) (line : String) : Unit × String :=
+  match line.splitOn " | " with
+  | [head, nmPart, foPart] =>
+    match head.splitOn " " with
+    | ["mig", _, v, d, r, ft] =>
+      let o : Opts := ⟨v == "v=1", d == "d=1", r == "r=1"⟩
+      let nm := (nmPart.drop 5).toString
+      -- an empty key is written as the empty hex string
+      let fo := parseFolder (foPart.drop 7).toString
+      let fault := parseFault (ft.drop 6).toString
+      let d0 : Disk (String × List Entry) := { v1 := fo, v1Folder := true, hyd := none }
+      let (res, d1) := migrate cfg idV2 o fault nm d0
+      let resTxt := match res with
+        | .success => "success" | .skippedEmpty => "skipped" | .failed ph => "failed:" ++ ph
+      let failed := match res with
+        | .failed _ => true
+        | _ => false
+      let v1Txt := if !d1.v1Folder then "gone" else if d1.v1.length == fo.length then "same" else s!"left:{d1.v1.length}"
+      let (hydTxt, loadTxt, nameTxt, loadBad) := match d1.hyd with
+        | none => ("0", "none", "na", false)
+        | some f =>
+          if failed then ("1", "partial", "partial", true)
+          else
+            let ks := keysOf fo
+            let uniq := uniqueKeys fo
+            let okAll := ks.all fun k =>
+              match idV2.loadMap f k with
+              | some x => if uniq then loadV1In fo k == some x else (candidates fo k).contains x
+              | none => false
+            let extra := f.2.any fun e => !ks.contains e.1
+            let bad := !okAll || extra
+            ("1", if bad then "DIFF" else if uniq then "match" else "dup-ok",
+             if idV2.nameOf f == nm then "ok" else "BAD", bad)
+      -- Spec: a failure leaves everything as it was; V1 files go only after a success
+      let flag :=
+        if failed && d1.hyd.isSome then
+          (match fault with
+           | .write 0 => "\t#F:C23-hyd-left-after-failed-create"
+           | .write _ => "\t#F:C23-hyd-left-after-failed-write"
+           | _ => "\t#F:C23-hyd-left-after-failed-verify")
+        else if failed && v1Txt != "same" then
+          (if !cfg.verifyBeforeDelete || !cfg.writeBeforeDelete then "\t#F:C23-delete-before-verify" else "\t#F:C23-v1-files-lost-on-failure")
+        else if loadBad then (if !cfg.dedupeLast then "\t#F:C23-dedupe-keeps-first" else "\t#F:C23-migrated-data-differs")
+        else ""
+      ((), s!"res={resTxt} v1={v1Txt} hyd={hydTxt} load={loadTxt} name={nameTxt}{flag}")
+    | _ => ((), "bad-op")
+  | _ =>
+    if line.startsWith "case " then ((), line) else ((), "bad-op")
+
+def run (args : List String) : IO UInt32 := do
+  let kv := parseArgs args
+  let y := fun k => triYes (arg kv k)
+  let cfg : MCfg := ⟨y "dedupeLast", y "verifyBeforeDelete", y "writeBeforeDelete", y "removeOnVerifyFail",
+                     y "removeOnWriteFail", y "removeOnOpenFail", y "emptyKeyIsError", y "verifyValues"⟩
+  lineLoop (step cfg) ()
+  return 0
 
 end Driver.C23
